@@ -101,7 +101,7 @@ func runC09(tier string, seed uint64, o *Out) error {
 	// corpus: F2 witness for the counting window (two tuples that shared one buffer), N = 2 and 3
 	for _, n := range []int{2, 3} {
 		a, b := []gval{S("x|y"), S("z")}, []gval{S("x"), S("y|z")}
-		rows := []grow{{1, a}, {2, b}, {3, a}, {4, b}, {5, a}, {6, b}, {7, a}}
+		rows := []grow{{id: 1, vals: a}, {id: 2, vals: b}, {id: 3, vals: a}, {id: 4, vals: b}, {id: 5, vals: a}, {id: 6, vals: b}, {id: 7, vals: a}}
 		bs, err := countingAPI(n, 2, rows)
 		if err != nil {
 			return err
